@@ -320,20 +320,26 @@ def run_check(prop, tier, seed, workdir, t_start, jobs):
             gen_file = os.path.join(common.LEAN, 'BridgeVerif', 'Generated', modname + '.lean')
             if err and gen_file in closure:
                 problems.append(err)
-        # the FUNCTIONS of the pure core, re-written as a MiniPy program (Generated/PyCore.lean): the driver runs it
-        # (ops Y.*) and the theorems of lean/BridgeVerif/Translated/ are about it
-        gen_file = os.path.join(common.LEAN, 'BridgeVerif', 'Generated', 'PyCore.lean')
-        before = open(gen_file, encoding='utf-8').read() if os.path.exists(gen_file) else None
+        # the FUNCTIONS of the pure core, re-written as MiniPy programs (Generated/PyCore{Base,Auction,Play}.lean and their
+        # union PyCore.lean): the driver runs the union (ops Y.*); the theorems of lean/BridgeVerif/Translated/ are about them
+        gdir = os.path.join(common.LEAN, 'BridgeVerif', 'Generated')
+        before = {}
+        for name in translate_py.FILES:
+            fp = os.path.join(gdir, name)
+            before[name] = open(fp, encoding='utf-8').read() if os.path.exists(fp) else None
         changed, err = translate_py.regenerate(common.REPO, common.LEAN)
-        if changed and before is not None:
+        if changed and all(v is not None for v in before.values()):
             ok_gen, out_gen = common.lake_build(['BridgeVerif.Generated.PyCore'])
             if not ok_gen:
                 # the translator produced something Lean does not accept: keep the last good program for the driver
                 err = 'core translation does not elaborate: ' + ' | '.join(
                     l for l in out_gen.splitlines() if 'error' in l)[:600]
-                with open(gen_file, 'w', encoding='utf-8') as fh:
-                    fh.write(before)
-        if err and (gen_file in closure or getattr(mod, 'TRANSLATED_AREAS', ())):
+                for name, text in before.items():
+                    with open(os.path.join(gdir, name), 'w', encoding='utf-8') as fh:
+                        fh.write(text)
+        uses_translation = any(os.path.join(gdir, name) in closure for name in translate_py.FILES) or \
+            bool(getattr(mod, 'TRANSLATED_AREAS', ()))
+        if err and uses_translation:
             problems.append(err)
         if hasattr(mod, 'prepare'):
             for msg in mod.prepare(workdir) or []:
